@@ -25,6 +25,8 @@ func (o sop) etoken(styles []int) (string, bool) {
 		return fmt.Sprintf("IC,%d,%d", o.Col, o.I), true
 	case "RC":
 		return fmt.Sprintf("RC,%d", o.Col), true
+	case "DR":
+		return fmt.Sprintf("DR,%d,%d", o.Row, o.Row2), true
 	}
 	return o.token(styles)
 }
@@ -47,6 +49,11 @@ func (o sop) eapply(f *excelize.File, sheet string, styles []int) (*excelize.Fil
 			cn = strings.ToLower(cn)
 		}
 		return f, f.RemoveCol(sheet, cn)
+	case "DR":
+		if o.Row2 == o.Row+1 && o.B {
+			return f, f.DuplicateRow(sheet, o.Row)
+		}
+		return f, f.DuplicateRowTo(sheet, o.Row, o.Row2)
 	}
 	return o.apply(f, sheet, styles)
 }
@@ -74,7 +81,7 @@ func maskFormulaText(win string) string {
 	return strings.Join(toks, " ")
 }
 
-func isEdit(k string) bool { return k == "IR" || k == "RR" || k == "IC" || k == "RC" }
+func isEdit(k string) bool { return k == "IR" || k == "RR" || k == "IC" || k == "RC" || k == "DR" }
 
 // everything the property names, on every sheet
 func c06Observation(f *excelize.File, w, h int) string {
@@ -202,7 +209,18 @@ func (c *Ctx) genC06(n int, attrs bool) hist {
 		if r.Intn(4) != 0 {
 			continue
 		}
-		switch r.Intn(4) {
+		switch r.Intn(5) {
+		case 4:
+			// duplicate: target above, right below, further below, or beyond the data
+			h.Ops[i] = sop{K: "DR", Row: 1 + r.Intn(h.H+2), B: r.Intn(2) == 0}
+			switch r.Intn(4) {
+			case 0:
+				h.Ops[i].Row2 = h.Ops[i].Row + 1
+			case 1:
+				h.Ops[i].Row2 = 1 + r.Intn(h.H+2)
+			default:
+				h.Ops[i].Row2 = 1 + r.Intn(h.H+6)
+			}
 		case 0:
 			h.Ops[i] = sop{K: "IR", Row: 1 + r.Intn(h.H+2), I: int64(1 + r.Intn(3))}
 		case 1:
@@ -212,7 +230,9 @@ func (c *Ctx) genC06(n int, attrs bool) hist {
 		case 3:
 			h.Ops[i] = sop{K: "RC", Col: 1 + r.Intn(h.W+2), B: r.Intn(3) == 0}
 		}
-		h.Ops[i].Col2, h.Ops[i].Row2 = 0, 0
+		if h.Ops[i].K != "DR" {
+			h.Ops[i].Col2, h.Ops[i].Row2 = 0, 0
+		}
 	}
 	// merges generated for the static history may overlap once edits moved them (overlap normalisation is not
 	// modelled): keep at most one merged range per history
@@ -378,7 +398,7 @@ func (c *Ctx) c06Objects() {
 }
 
 func runC06(c *Ctx) {
-	c.R.Rule = "histories mixing cell writes, formulas, styles, merges, row/column attributes, hyperlinks, defined names with InsertRows/RemoveRow/InsertCols/RemoveCol (positions before/inside/after the data, counts 1..3, lower-case column names) on a workbook whose other sheet refers to the edited one; window + merged ranges vs the extracted model (erun); rejected edits change nothing on any sheet; insert n then remove n restores the whole observation; limit cases (XFD / row 1048576 occupied). non-trivial = at least one structural edit and one other op"
+	c.R.Rule = "histories mixing cell writes, formulas, styles, merges, row/column attributes, hyperlinks, defined names with InsertRows/RemoveRow/InsertCols/RemoveCol/DuplicateRow/DuplicateRowTo (positions before/inside/after the data, counts 1..3, lower-case column names) on a workbook whose other sheet refers to the edited one; window + merged ranges vs the extracted model (erun); rejected edits change nothing on any sheet; insert n then remove n restores the whole observation; limit cases (XFD / row 1048576 occupied); DuplicateRowTo for every source/target pair over rows that each carry their own data validation, conditional format, merged range and height (the copy gets the source row's, the rest shifts, writes still land in their rows, removing the copy restores the sheet; targets beyond the row limit are rejected). non-trivial = at least one structural edit and one other op"
 	var cases []mcase
 	n := 1200
 	if c.Thorough() {
@@ -393,5 +413,6 @@ func runC06(c *Ctx) {
 	}
 	c.compareBatch(cases)
 	c.c06Objects()
+	c.c06Duplicates()
 	c.c06Limits()
 }
